@@ -2,6 +2,7 @@ package query
 
 import (
 	"fmt"
+	"regexp"
 	"strings"
 	"testing"
 
@@ -9,6 +10,7 @@ import (
 	qry "github.com/apmckinlay/gsuneido/dbms/query"
 	"pgregory.net/rapid"
 	"verifharness/internal/ev"
+	"verifharness/internal/kf"
 	"verifharness/internal/rt"
 )
 
@@ -147,6 +149,32 @@ func absentValue(t *rapid.T, cols []string, L [][]string, col string) (string, b
 	return pickOf(t, "absent", cand), true
 }
 
+var disjointMergeRe = regexp.MustCompile(`union-disjoint\(([a-z0-9_]*)\)-merge`)
+
+// disjointMergeOrder: the strategy merges a disjoint union and the violated
+// order names the disjoint column (known finding union-disjoint-merge-order).
+func disjointMergeOrder(strat, msg string) bool {
+	first := strings.SplitN(msg, "\n", 2)[0]
+	for _, m := range disjointMergeRe.FindAllStringSubmatch(strat, -1) {
+		if regexp.MustCompile(`\b` + regexp.QuoteMeta(m[1]) + `\b`).MatchString(first) {
+			return true
+		}
+	}
+	return false
+}
+
+// disjointMergeUnderSeq: a summarize-seq/project-seq groups by the disjoint
+// column of a union-disjoint(col)-merge below it (same known finding: the
+// merge does not deliver the rows grouped by col).
+func disjointMergeUnderSeq(strat string) bool {
+	for _, m := range disjointMergeRe.FindAllStringSubmatch(strat, -1) {
+		if regexp.MustCompile(`(summarize|project)-seq[^()]*\b` + regexp.QuoteMeta(m[1]) + `\b`).MatchString(strat) {
+			return true
+		}
+	}
+	return false
+}
+
 type c23stats struct {
 	dirChanges int
 	hits       int
@@ -181,7 +209,7 @@ func TestC23(t *testing.T) {
 				continue
 			}
 			if err != nil {
-				if c.knownCrash(rec, "C23", err) {
+				if c.knownCrash(rec, "C23", err, "") {
 					return
 				}
 				t.Fatalf("engine failed to set up: %v\nplan: %v\n%s\n%s", err, p, c.describe(), err.stack)
@@ -191,12 +219,20 @@ func TestC23(t *testing.T) {
 			err = catch(func() { msg = c.contracts(t, x, &st) })
 			x.close()
 			if err != nil {
-				if c.knownCrash(rec, "C23", err) {
+				if c.knownCrash(rec, "C23", err, x.strat) {
 					return
 				}
 				t.Fatalf("engine panicked: %v\nplan: %v\nstrategy: %s\n%s\n%s", err, p, x.strat, c.describe(), err.stack)
 			}
 			if msg != "" {
+				if (strings.HasPrefix(msg, "rows not") && disjointMergeOrder(x.strat, msg)) ||
+					(strings.HasPrefix(msg, "Keys()") && disjointMergeUnderSeq(x.strat)) {
+					if e, ok := kf.Known("C23", "union-disjoint-merge-order"); ok {
+						rec.Excluded("union-disjoint-merge-order")
+						rec.Known(e.What)
+						return
+					}
+				}
 				t.Fatalf("C23: %s\nplan: %v\nstrategy: %s\n%s", msg, p, x.strat, c.describe())
 			}
 			nt := st.dirChanges >= 1 && st.hits >= 1 && st.misses >= 1
@@ -434,7 +470,9 @@ func (c *caseT) lookups(t *rapid.T, x *execT, L [][]string, st *c23stats) string
 		} else if kind == 3 {
 			continue
 		}
+		c.extraSels = len(order) > len(p.cols)
 		row := x.q.Lookup(x.th, mkSels(t, sels, order))
+		c.extraSels = false
 		var got []string
 		if row != nil {
 			got = x.vals(row)
